@@ -79,6 +79,7 @@ package git
 //@ spec DatePart(t string) string := ReGroup(AfterAuthor(t), "\\d{4}-\\d{2}-\\d{2}", 0)
 //@ spec RawMsg(t string) string := After(AfterAuthor(t), DatePart(t))
 //@ spec IsHeader(t string) bool := HasRev(t) && ReMatch(After(t, RevAll(t)), "(.*?)\\s\\d{4}-\\d{2}-\\d{2}") && AuthorPart(t) != "" && ReMatch(AfterAuthor(t), "\\d{4}-\\d{2}-\\d{2}")
+//@ spec ModeGroup(t string, i int) string := ReGroup(t, "\\s(\\w{1,6})\\s(mode 100(\\d){3})?\\s?(.*)(\\s\\(\\d{2}%\\))?", i)
 //@ spec NumGroup(t string, i int) string := ReGroup(t, "^([\\d-]+)[\\t\\s]+([\\d-]+)[\\t\\s]+(.*)", i)
 
 //@ func ParseLog
@@ -100,6 +101,13 @@ package git
 //@    commits[len(old(commits))].Rev == old(currentCommit.Rev) && commits[len(old(commits))].Author == old(currentCommit.Author) &&
 //@    commits[len(old(commits))].Date == old(currentCommit.Date) && commits[len(old(commits))].Message == old(currentCommit.Message) &&
 //@    len(commits[len(old(commits))].Changes) >= len(old(currentFileChanges)) && currentCommit.Rev == ""
+// a summary line touches neither the commit list nor the commit being read; the change it names gets its mode (see buildChangeMode)
+//@ ensures !IsHeader(text) && !IsNumstat(text) && IsMode(text) ==> commits == old(commits) && currentCommit == old(currentCommit)
+//@ ensures !IsHeader(text) && !IsNumstat(text) && IsMode(text) && (ModeGroup(text, 4) in old(currentFileChangeMap)) ==> currentFileChanges == old(currentFileChanges) &&
+//@    currentFileChangeMap[ModeGroup(text, 4)].Mode == ModeGroup(text, 1) && currentFileChangeMap[ModeGroup(text, 4)].Added == old(currentFileChangeMap)[ModeGroup(text, 4)].Added &&
+//@    currentFileChangeMap[ModeGroup(text, 4)].Deleted == old(currentFileChangeMap)[ModeGroup(text, 4)].Deleted
+//@ ensures !IsHeader(text) && !IsNumstat(text) && IsMode(text) && !(ModeGroup(text, 4) in old(currentFileChangeMap)) && ModeGroup(text, 1) == "delete" ==>
+//@    Extends(currentFileChanges, old(currentFileChanges), 1) && currentFileChanges[len(old(currentFileChanges))].File == ModeGroup(text, 4) && currentFileChanges[len(old(currentFileChanges))].Mode == "delete"
 //@ ensures !IsHeader(text) && !IsNumstat(text) && !IsMode(text) && old(currentCommit.Rev) == "" ==> commits == old(commits) && currentCommit == old(currentCommit)
 //@ loop 1 invariant len(currentFileChanges) >= len(old(currentFileChanges))
 // proof steps: the running text equals the statement-level decomposition of the header
@@ -117,6 +125,20 @@ package git
 //@ modifies currentFileChangeMap, currentFileChanges
 //@ ensures currentFileChangeMap != nil
 //@ ensures len(currentFileChanges) >= len(old(currentFileChanges))
+// a summary line (` create mode 100644 path`, ` delete mode 100644 path`, ` rename a => b (87%)`) names its mode and path
+//@ ensures !IsMode(text) ==> currentFileChangeMap == old(currentFileChangeMap) && currentFileChanges == old(currentFileChanges)
+// the change already collected for that path gets the mode and keeps its counts; nothing else moves
+//@ ensures IsMode(text) && (ModeGroup(text, 4) in old(currentFileChangeMap)) ==> currentFileChanges == old(currentFileChanges) &&
+//@    (ModeGroup(text, 4) in currentFileChangeMap) && currentFileChangeMap[ModeGroup(text, 4)].Mode == ModeGroup(text, 1) &&
+//@    currentFileChangeMap[ModeGroup(text, 4)].Added == old(currentFileChangeMap)[ModeGroup(text, 4)].Added &&
+//@    currentFileChangeMap[ModeGroup(text, 4)].Deleted == old(currentFileChangeMap)[ModeGroup(text, 4)].Deleted &&
+//@    currentFileChangeMap[ModeGroup(text, 4)].File == old(currentFileChangeMap)[ModeGroup(text, 4)].File
+//@ ensures IsMode(text) ==> (forall k string :: {k in currentFileChangeMap} k != ModeGroup(text, 4) ==> ((k in currentFileChangeMap) <==> (k in old(currentFileChangeMap))) && currentFileChangeMap[k] == old(currentFileChangeMap)[k])
+// a deletion of a path without a numstat line becomes a change of its own, exactly one
+//@ ensures IsMode(text) && !(ModeGroup(text, 4) in old(currentFileChangeMap)) && ModeGroup(text, 1) == "delete" ==> currentFileChangeMap == old(currentFileChangeMap) &&
+//@    Extends(currentFileChanges, old(currentFileChanges), 1) && currentFileChanges[len(old(currentFileChanges))].File == ModeGroup(text, 4) &&
+//@    currentFileChanges[len(old(currentFileChanges))].Mode == "delete" && currentFileChanges[len(old(currentFileChanges))].Added == 0 && currentFileChanges[len(old(currentFileChanges))].Deleted == 0
+//@ ensures IsMode(text) && !(ModeGroup(text, 4) in old(currentFileChangeMap)) && ModeGroup(text, 1) != "delete" ==> currentFileChangeMap == old(currentFileChangeMap) && currentFileChanges == old(currentFileChanges)
 
 // ---- C15: the per-file history table (age, authors, revisions): every entry has its own author and revision sets
 //@ spec InfoOK(m map[string]ProjectInfo) bool := forall f string :: {m[f]} (f in m) ==> m[f].Authors != nil && m[f].Revs != nil
